@@ -4,7 +4,7 @@
    rules evaluated on books that are a pure function of the document (Proofs/ValidateScopes.v). *)
 From Coq Require Import ZArith List String Bool Lia.
 From TV Require Import Py.Prelude Model.Schema Model.ImplValidate Model.SpecValidate Proofs.ValidateProofs Proofs.ValidateRules
-     Proofs.ValidateValues Proofs.ValidateSites Proofs.ValidateWalk Proofs.ValidateTree Proofs.ValidateSpreads Proofs.ValidateScopes.
+     Proofs.ValidateValues Proofs.ValidateSites Proofs.ValidateWalk Proofs.ValidateTree Proofs.ValidateSpreads Proofs.ValidateScopes Proofs.ValidateVars.
 Import ListNotations.
 Open Scope list_scope.
 
@@ -28,3 +28,46 @@ Proof.
   rewrite (possible_spreads_exact V doc).
   destruct (variable_rules_pure V doc) as (E1 & E2 & E3). rewrite E1, E2, E3. reflexivity.
 Qed.
+
+(* the three variable rules refuse, wherever the use sits (operation, nested selection, fragment reached through spreads,
+   directive argument, nested input value) *)
+Section Refusals.
+Variable V : vschema.
+Hypothesis Hin : forall n ifs f, vfind_type V n = Some (DInput ifs) -> In f ifs -> input_ty V (in_type f).
+Hypothesis Hfields : forall scope name f d, vfind_field V scope name = Some f -> In d (fd_args f) -> input_ty V (in_type d).
+Hypothesis Hdirs : forall n dd d, vfind_directive V n = Some dd -> In d (dd_args dd) -> input_ty V (in_type d).
+
+Theorem undeclared_variable_refused doc o n l :
+  In o (operations doc) -> op_sees (books_ctx V doc) si_used o (n, l) ->
+  (forall vd, In vd (o_vars o) -> v_name vd <> n) -> accepted V doc = false.
+Proof.
+  intros Ho Hs Hno. destruct (accepted V doc) eqn:E; [|reflexivity]. exfalso.
+  apply (accepted_is_a_predicate_of_the_document V Hin Hfields Hdirs doc) in E.
+  destruct E as (_ & _ & _ & _ & _ & _ & _ & _ & _ & Hq & _).
+  destruct (proj1 (uses_defined_exact (books_ctx V doc) (operations doc)) Hq o Ho) as [_ Hd].
+  destruct (Hd n l Hs) as (vd & Hvd & Hn). exact (Hno vd Hvd Hn).
+Qed.
+
+Theorem unused_variable_refused doc o vd :
+  In o (operations doc) -> In vd (o_vars o) ->
+  (forall l, ~ op_sees (books_ctx V doc) si_used o (v_name vd, l)) -> accepted V doc = false.
+Proof.
+  intros Ho Hvd Hno. destruct (accepted V doc) eqn:E; [|reflexivity]. exfalso.
+  apply (accepted_is_a_predicate_of_the_document V Hin Hfields Hdirs doc) in E.
+  destruct E as (_ & _ & _ & _ & _ & _ & _ & _ & _ & _ & Hq & _).
+  destruct (proj1 (variables_used_exact (books_ctx V doc) (operations doc)) Hq o Ho) as [_ Hd].
+  destruct (Hd vd Hvd) as (l & Hs). exact (Hno l Hs).
+Qed.
+
+Theorem disallowed_usage_refused doc o u a vd :
+  In o (operations doc) -> op_sees (books_ctx V doc) si_args o u -> schema_argument V u = Some a ->
+  find (fun vd0 => String.eqb (v_name vd0) (au_var u)) (o_vars o) = Some vd -> usage_ok a vd = false ->
+  accepted V doc = false.
+Proof.
+  intros Ho Hs Ha Hvd Hno. destruct (accepted V doc) eqn:E; [|reflexivity]. exfalso.
+  apply (accepted_is_a_predicate_of_the_document V Hin Hfields Hdirs doc) in E.
+  destruct E as (_ & _ & _ & _ & _ & _ & _ & _ & _ & _ & _ & Hq).
+  destruct (proj1 (usages_allowed_exact V (books_ctx V doc) (operations doc)) Hq o Ho) as [_ Hd].
+  rewrite (Hd u a vd Hs Ha Hvd) in Hno. discriminate.
+Qed.
+End Refusals.
